@@ -598,6 +598,23 @@ def install(ex):
                 return r
         raise Suspended(c)
 
+    @M(r'^<Arc<.*> as AsRef<.*>>::as_ref$|^<Box<.*> as AsRef<.*>>::as_ref$|^<Arc<.*> as std::borrow::Borrow<.*>>::borrow$')
+    def arc_as_ref(ex, c, a):
+        v = deref(a[0])
+        if isinstance(v, Agg) and v.ty in ('Arc', 'Box', 'Rc'):
+            return Ref(v.f, 0)
+        raise Unsupported('as_ref of ' + repr(v)[:50])
+
+    @M(r'^Option::<.*>::(as_deref|as_deref_mut)$')
+    def option_as_deref(ex, c, a):
+        o = deref(a[0])
+        if o.variant != 1:
+            return none()
+        x = o.f[0]
+        if isinstance(x, Agg) and x.ty in ('Box', 'Arc', 'Rc'):
+            return some(Ref(x.f, 0))
+        return some(Ref(o.f, 0))          # Vec<T> -> &[T], String -> &str: the list value itself stands for the slice
+
     # ------------------------------------------------------------------ mem / default / misc
     @M(r'^std::mem::take::<|^core::mem::take::<')
     def mem_take(ex, c, a):
